@@ -112,8 +112,9 @@ func C06(tier rt.Tier) int {
 	for _, u := range us {
 		runUniverse(rep, u, time.Now().Add(per))
 	}
+	capacityScenarios(rep)
 	rep.Set("dedup", haveDump)
-	rep.Set("rule", "for every block forest of the stated size: BFS to closure over events {txn Set/Remove/Commit, block Commit (any order, children before parents), lookups through TransactionCache, BlockCache, QueryBlockCache and StateCache at every block (lookups are events: they memoise)}; every hit must equal the block-tree model's most recent write on the context's own chain (own uncommitted writes first), removed/unknown keys and chains through uncommitted blocks must miss; states merged on model + dumped private cache contents (overlay-added dump file); after every transition all lookups are additionally evaluated on the throw-away instance")
+	rep.Set("rule", "for every block forest of the stated size: BFS to closure over events {txn Set/Remove/Commit, block Commit (any order, children before parents), lookups through TransactionCache, BlockCache, QueryBlockCache and StateCache at every block (lookups are events: they memoise)}; every hit must equal the block-tree model's most recent write on the context's own chain (own uncommitted writes first), removed/unknown keys and chains through uncommitted blocks must miss; states merged on model + dumped private cache contents (overlay-added dump file); after every transition all lookups are additionally evaluated on the throw-away instance; plus 12 macro-event capacity scenarios (150..260 sibling writers of one key around the per-key capacity 200, with/without re-reading an old ancestor)")
 	rep.Assumption("universes stay far below every LRU capacity (asserted); capacity/eviction behaviour is covered by separate macro-scenarios only")
 	return rep.Finish()
 }
